@@ -1,6 +1,26 @@
 """Per-property manifest entries. Only properties with a working check appear in CHECKS."""
 
 CHECKS = {
+    "C06": {
+        "level": "exploration",
+        "technique": "hypothesis-generated inheritance chains; chain model (self/next/parent/local resolution, base-most block rule)",
+        "text": ("Chains of 1..5 templates declaring random subsets of defs, named blocks (incl. nested), module attributes and "
+                 "bodies that call self/next/parent/local members, self.attr / next.attr, next.body(x=..) / self.body(), with static "
+                 "and dynamic inherit targets, are rendered and compared with an independent chain model; generated negative cases "
+                 "(duplicate block, block/def clash, named block in def / call) must raise CompileException. Sampled (~3k quick, ~96k thorough)."),
+        "note": "Trusted: the chain model in vf/props/c06.py. Only calls that the model resolves are generated.",
+    },
+    "C07": {
+        "level": "exploration",
+        "technique": "hypothesis-generated template sets in directory trees; URI-resolution + namespace/include model",
+        "text": ("Sets of 2..8 templates in directory trees (depth 0..3, one or two lookup roots, file-backed or put_string) connected "
+                 "by named / importing / star / inline-def / inheritable / module namespaces, <%include args>, get_namespace, "
+                 "get_template and include_file with relative and absolute URI spellings, first-root-wins shadow copies and "
+                 "unresolvable targets are rendered and compared with a model of URI resolution, member precedence, import "
+                 "shadowing of context variables, include independence and page-argument sourcing. Sampled (~2.4k quick, ~64k thorough)."),
+        "note": ("Trusted: the model in vf/props/c07.py. '..' only with file-backed lookups; importing templates define no "
+                 "same-named defs of their own (precedence not stated)."),
+    },
     "C05": {
         "level": "exploration",
         "technique": "hypothesis-generated def/call programs; reference interpreter with explicit buffer stack and caller frames",
